@@ -32,6 +32,8 @@ import (
 //              through the real SIGUSR1 handler (signal sent to this process; the registered
 //              Casketfile loader hands out the configuration)
 //   V:<kind>   casket.ValidateAndExecuteDirectives(cfg, nil, true)      (what `casket -validate` runs)
+//   R:<kind>   Instance.Restart(cfg) called directly on the running instance (the API-level reload: unlike the SIGUSR1
+//              handler nobody purges the hook registry before or restores it after); casket.Start when nothing runs
 //   X          casket.Stop()
 //
 //   kinds (ports p1, p2 are free loopback ports chosen per case; p3 is held by a foreign listener):
@@ -43,7 +45,11 @@ import (
 //     argL   H1 + `proxy /` without an upstream (setup error in a directive that runs AFTER `on`)
 //     tlsM   tls with missing certificate files    imp   import of a missing file
 //     logE   H1 + `log` into a directory that does not exist (the OnStartup callback fails)
+//     mux    a TLS site (self-signed) and a plain-HTTP site on the same port p1: MakeServers refuses to build the server
 //     busy3  one site on p3 (port in use)          leak13  sites on p1 and p3     leak123  sites on p1, p2, p3
+//     <k>.h<N>  for k in H1 argE argL tlsM logE mux busy3 leak13 leak123: the same configuration with N (0..9) `on` directives,
+//            dealt out to its sites in turn (events shutdown / certrenew, which never fire here); the plain spelling
+//            stands for N = 1 (busy3, leak123: 0)
 //     ty-<w> A1 + a mistyped directive <w> (proxi basicaut rewrit gzi loggg tlss redri zzz): rejected by the parser
 //     Pa1 Pb1  site on p1 with `basicauth /secret alice htpasswd=F` and `basicauth /api bob htpasswd=F`; before the attempt the
 //              htpasswd file F (one path per case) is written in version a resp. b (different passwords)        Qa1  only the bob rule
@@ -188,7 +194,30 @@ var c08Ports, c08BusyPort verifPorts
 
 func c08FreePort() int { return c08Ports.reserve(false) }
 
+// kinds whose number of `on` directives can be chosen with the suffix .h<N> (N one decimal digit), and the number
+// the plain spelling stands for
+var c08HookDefault = map[string]int{"H1": 1, "argE": 1, "argL": 1, "tlsM": 1, "logE": 1, "mux": 1, "busy3": 0, "leak13": 1, "leak123": 0}
+
+// c08SplitKind splits <base>.h<N> into base and N; a kind without the suffix registers its default number of hooks
+func c08SplitKind(kind string) (string, int, bool) {
+	base, n, has := strings.Cut(kind, ".h")
+	if !has {
+		if kind == "HH12" {
+			return kind, 2, true
+		}
+		return kind, c08HookDefault[kind], true
+	}
+	if _, hookable := c08HookDefault[base]; !hookable || len(n) != 1 || n[0] < '0' || n[0] > '9' {
+		return "", 0, false
+	}
+	return base, int(n[0] - '0'), true
+}
+
 func c08Config(kind string, p [4]int) (string, bool) {
+	kind, nh, ok := c08SplitKind(kind)
+	if !ok {
+		return "", false
+	}
 	site := func(pi int, marker string, extra ...string) string {
 		var b strings.Builder
 		fmt.Fprintf(&b, "127.0.0.1:%d {\n root %s\n", p[pi], filepath.Join(c08.dir, marker))
@@ -198,7 +227,15 @@ func c08Config(kind string, p [4]int) (string, bool) {
 		b.WriteString("}\n")
 		return b.String()
 	}
-	hook := "on shutdown true"
+	// the `on` directives of site i of n: the nh hooks of the configuration are dealt out to its sites in turn, for
+	// events that never fire in the harness (every directive registers one hook under a fresh name)
+	hooks := func(i, n int, extra ...string) []string {
+		var out []string
+		for j := i; j < nh; j += n {
+			out = append(out, []string{"on shutdown true", "on certrenew true"}[j%2])
+		}
+		return append(out, extra...)
+	}
 	if strings.HasPrefix(kind, "ty-") {
 		for _, w := range c08Typos {
 			if kind == "ty-"+w {
@@ -235,29 +272,42 @@ func c08Config(kind string, p [4]int) (string, bool) {
 	case "C2":
 		return site(2, "C"), true
 	case "H1":
-		return site(1, "H", hook), true
+		return site(1, "H", hooks(0, 1)...), true
 	case "HH12":
-		return site(1, "H", hook) + site(2, "H", hook), true
+		return site(1, "H", hooks(0, 2)...) + site(2, "H", hooks(1, 2)...), true
 	case "syn":
 		return fmt.Sprintf("127.0.0.1:%d {\n root %s\n", p[1], c08.dir), true
 	case "unk":
 		return site(1, "A", "nosuchdirective x"), true
 	case "argE":
-		return site(1, "H", hook, "timeouts bogus"), true
+		return site(1, "H", hooks(0, 1, "timeouts bogus")...), true
 	case "argL":
-		return site(1, "H", hook, "proxy /"), true
+		return site(1, "H", hooks(0, 1, "proxy /")...), true
 	case "tlsM":
-		return site(1, "A", hook, "tls /nonexistent/verif/cert.pem /nonexistent/verif/key.pem"), true
+		return site(1, "A", hooks(0, 1, "tls /nonexistent/verif/cert.pem /nonexistent/verif/key.pem")...), true
 	case "imp":
 		return site(1, "A", "import /nonexistent/verif/snippet"), true
 	case "logE":
-		return site(1, "H", hook, "log /nonexistent/verif/dir/access.log"), true
+		return site(1, "H", hooks(0, 1, "log /nonexistent/verif/dir/access.log")...), true
+	case "mux":
+		// MakeServers fails: a TLS site and a plain-HTTP site cannot share one listener
+		var b strings.Builder
+		fmt.Fprintf(&b, "a.test:%d {\n root %s\n tls self_signed\n", p[1], filepath.Join(c08.dir, "A"))
+		for _, e := range hooks(0, 2) {
+			b.WriteString(" " + e + "\n")
+		}
+		fmt.Fprintf(&b, "}\nhttp://b.test:%d {\n root %s\n", p[1], filepath.Join(c08.dir, "B"))
+		for _, e := range hooks(1, 2) {
+			b.WriteString(" " + e + "\n")
+		}
+		b.WriteString("}\n")
+		return b.String(), true
 	case "busy3":
-		return site(3, "A"), true
+		return site(3, "A", hooks(0, 1)...), true
 	case "leak13":
-		return site(1, "A", hook) + site(3, "A"), true
+		return site(1, "A", hooks(0, 2)...) + site(3, "A", hooks(1, 2)...), true
 	case "leak123":
-		return site(1, "B") + site(2, "B") + site(3, "B"), true
+		return site(1, "B", hooks(0, 3)...) + site(2, "B", hooks(1, 3)...) + site(3, "B", hooks(2, 3)...), true
 	}
 	return "", false
 }
@@ -485,7 +535,7 @@ func c08Eval(f []string) (string, []string) {
 	for _, opS := range f {
 		res := "ok"
 		switch {
-		case strings.HasPrefix(opS, "L:") || strings.HasPrefix(opS, "V:"):
+		case strings.HasPrefix(opS, "L:") || strings.HasPrefix(opS, "V:") || strings.HasPrefix(opS, "R:"):
 			text, ok := c08Config(opS[2:], p)
 			if !ok {
 				bad = true
@@ -521,6 +571,21 @@ func c08Eval(f []string) (string, []string) {
 					c08.timeouts++
 				}
 				tags["start-"+res] = true
+			case opS[0] == 'R':
+				// the API-level reload: nobody purges or restores the hook registry around it
+				inst := casket.Instances()[0]
+				done := make(chan error, 1)
+				go func() { _, err := inst.Restart(in); done <- err }()
+				select {
+				case err := <-done:
+					if err != nil {
+						res = "err"
+					}
+				case <-time.After(c08Watchdog()):
+					res = "timeout"
+					c08.timeouts++
+				}
+				tags["restart-"+res] = true
 			default:
 				c08.mu.Lock()
 				c08.next = in
@@ -563,6 +628,8 @@ func c08Eval(f []string) (string, []string) {
 	return strings.Join(steps, "|"), tl
 }
 
+var c08ValidKind = map[string]bool{"A1": true, "B12": true, "C2": true, "H1": true, "HH12": true, "O1": true, "OB12": true, "Pa1": true, "Pb1": true, "Qa1": true}
+
 var c08Typos = []string{"proxi", "basicaut", "rewrit", "gzi", "loggg", "tlss", "redri", "zzz"}
 
 var c08Kinds = []string{"Pa1", "Pb1", "Qa1", "Pm1", "Pm2", "Pm3", "Pn1", "O1", "OB12", "A1", "B12", "C2", "H1", "HH12", "syn", "unk", "argE", "argL", "tlsM", "imp", "logE", "busy3", "leak13", "leak123"}
@@ -576,12 +643,18 @@ func c08Gen(g *hx.Gen) {
 		alpha = append(alpha, "L:ty-"+w)
 	}
 	alpha = append(alpha, "V:H1", "V:argL", "V:syn", "V:ty-proxi", "V:ty-basicaut", "V:Pm1", "V:Pm3", "X")
+	// failing configurations that register SEVERAL hooks, and the API-level reload: in the quick tier they are crossed
+	// with the core of the alphabet (below), in the thorough tier with all of it
+	several := []string{"L:argL.h3", "R:A1", "R:logE.h2", "R:argL.h3", "R:mux.h2"}
+	if g.Thorough() {
+		alpha = append(alpha, several[:3]...)
+	}
 	maxLen := 2
 	if g.Thorough() {
 		maxLen = 3
 	}
 	core := []string{"L:A1", "L:B12", "L:H1", "L:O1", "L:Pa1", "L:Pm1", "L:Pn1", "L:syn", "L:argL", "L:logE", "L:leak13",
-		"L:ty-proxi", "V:H1", "V:Pm1", "X"}
+		"L:ty-proxi", "V:H1", "V:Pm1", "X", "R:logE.h2"}
 	// the property's shape: any attempts, then a valid configuration — a plain one and an ORDER-SENSITIVE one, whose
 	// behaviour must be that of a fresh process whatever was attempted before
 	finals0 := []string{"L:B12", "L:O1"}
@@ -615,25 +688,70 @@ func c08Gen(g *hx.Gen) {
 		}
 	}
 	rec(nil, maxLen)
-	N := 700
+	if !g.Thorough() {
+		for i, n := range several {
+			for j, a := range core {
+				g.Case(a, n, finals0[(i+j)%2])
+				g.Case(n, a, finals0[(i+j+1)%2])
+			}
+			for j, m := range several {
+				g.Case(n, m, finals0[(i+j)%2])
+			}
+		}
+	}
+	// the number of hooks a FAILING configuration registers, at every stage a failure can occur at after `on` has run
+	// (and at one before it), through every way of loading, in a process whose registry is empty, holds the hooks of a
+	// running instance, or holds hooks of an earlier validation; then a valid load
+	stages := []string{"argE", "argL", "tlsM", "logE", "mux", "busy3", "leak13", "leak123"}
+	counts := []int{0, 2, 3, 5}
+	contexts := [][]string{{}, {"L:A1"}, {"L:H1.h2"}, {"V:H1.h3"}, {"L:HH12", "X"}}
+	if g.Thorough() {
+		counts = []int{0, 2, 3, 4, 5, 6, 7, 8, 9}
+		contexts = append(contexts, []string{"L:H1.h3", "V:H1.h2"}, []string{"V:logE.h2"}, []string{"L:argL.h3"})
+	}
+	for si, st := range stages {
+		for ni, n := range counts {
+			for ci, ctx := range contexts {
+				for hi, how := range []string{"L:", "V:", "R:"} {
+					op := fmt.Sprintf("%s%s.h%d", how, st, n)
+					final := finals0[(si+ni+ci+hi)%2]
+					g.Case(append(append([]string(nil), ctx...), op, final)...)
+					if g.Thorough() || (ni+ci+hi)%3 == 0 {
+						// twice in a row, then a valid configuration with hooks of its own through the API-level reload
+						g.Case(append(append([]string(nil), ctx...), op, op, "R:H1.h2")...)
+					}
+				}
+			}
+		}
+	}
+	N := 550
 	if g.Thorough() {
 		N = 6000
 	}
 	valid := []string{"A1", "B12", "C2", "H1", "HH12", "O1", "OB12", "Pa1", "Pb1", "Qa1"}
+	hookable := []string{"H1", "argE", "argL", "tlsM", "logE", "mux", "busy3", "leak13", "leak123"}
+	kind := func() string {
+		if g.Rng.Intn(4) == 0 {
+			return fmt.Sprintf("%s.h%d", hx.Pick(g.Rng, hookable), g.Rng.Intn(10))
+		}
+		return hx.Pick(g.Rng, c08Kinds)
+	}
 	for it := 0; it < N; it++ {
 		L := 2 + g.Rng.Intn(6)
 		var ops []string
 		for i := 0; i < L; i++ {
 			r := g.Rng.Intn(20)
 			switch {
+			case r < 9:
+				ops = append(ops, "L:"+kind())
 			case r < 11:
-				ops = append(ops, "L:"+hx.Pick(g.Rng, c08Kinds))
+				ops = append(ops, "R:"+kind())
 			case r < 15:
 				ops = append(ops, "L:ty-"+hx.Pick(g.Rng, c08Typos))
 			case r < 16:
 				ops = append(ops, "V:ty-"+hx.Pick(g.Rng, c08Typos))
 			case r < 18:
-				ops = append(ops, "V:"+hx.Pick(g.Rng, c08Kinds))
+				ops = append(ops, "V:"+kind())
 			default:
 				ops = append(ops, "X")
 			}
@@ -641,7 +759,8 @@ func c08Gen(g *hx.Gen) {
 		ops = append(ops, "L:"+hx.Pick(g.Rng, valid))
 		g.Case(ops...)
 	}
-	for _, m := range [][]string{{"L:"}, {"L:nope"}, {"Q"}, {"V:"}, {"L:A1", "Y"}, {"L:ty-"}, {"L:ty-unknownword"}} {
+	for _, m := range [][]string{{"L:"}, {"L:nope"}, {"Q"}, {"V:"}, {"L:A1", "Y"}, {"L:ty-"}, {"L:ty-unknownword"},
+		{"L:argL.h"}, {"L:argL.h12"}, {"L:argL.hx"}, {"L:A1.h2"}, {"L:syn.h1"}, {"L:argL.h3.h2"}, {"R:"}, {"R:nope"}, {"L:ty-zzz.h1"}, {"L:.h1"}} {
 		g.Case(m...)
 	}
 }
